@@ -4,19 +4,21 @@ import YaclibModel.Proofs.FiberSyncStep2
 import YaclibModel.Proofs.FiberSyncStep3
 import YaclibModel.Proofs.FiberSyncStep4
 import YaclibModel.Proofs.FiberSyncStep5
+import YaclibModel.Proofs.FiberSyncStep6
 namespace Yaclib.FiberSync.Mx
 open Yaclib.FiberSync
 
 theorem inv_step {k s l s'} (hi : Inv k s) (hs : Step s l s') : Inv k s' := by
-  have h6 : grpOf l = 0 ∨ grpOf l = 1 ∨ grpOf l = 2 ∨ grpOf l = 3 ∨ grpOf l = 4 ∨ grpOf l = 5 := by
+  have h6 : grpOf l = 0 ∨ grpOf l = 1 ∨ grpOf l = 2 ∨ grpOf l = 3 ∨ grpOf l = 4 ∨ grpOf l = 5 ∨ grpOf l = 6 := by
     cases l <;> simp [grpOf]
-  rcases h6 with h | h | h | h | h | h
+  rcases h6 with h | h | h | h | h | h | h
   · exact inv_step_0 hi hs h
   · exact inv_step_1 hi hs h
   · exact inv_step_2 hi hs h
   · exact inv_step_3 hi hs h
   · exact inv_step_4 hi hs h
   · exact inv_step_5 hi hs h
+  · exact inv_step_6 hi hs h
 
 theorem inv_reachable {k n s} (h : Reachable k n s) : Inv k s := by
   induction h with
